@@ -23,7 +23,7 @@ var propDefs = map[string]PropDef{
 	"C01": {Classes: []string{"TABLE", "LEMMA", "POST", "INV", "PRE"}, Level: "proof"},
 	"C02": {Classes: []string{"TABLE", "LEMMA", "POST", "INV", "PRE"}, Level: "proof"},
 	"C03": {Classes: []string{"LEMMA", "POST", "INV", "PRE"}, Level: "proof"},
-	"C04": {Classes: []string{"SAFE", "POST", "PRE", "INV", "TERM", "SIZE"}, Level: "proof"},
+	"C04": {Classes: []string{"SAFE", "POST", "PRE", "INV", "OWN"}, Level: "proof"},
 	"C05": {Classes: []string{"POST", "LEMMA", "INV", "PRE"}, Level: "proof"},
 	"C06": {Classes: []string{"TABLE", "LEMMA", "POST", "TRACE", "PRE", "INV"}, Level: "proof"},
 	"C07": {Classes: []string{"SAFE", "PRE", "INV", "FRAME"}, Level: "proof"},
